@@ -6,53 +6,17 @@ import QbiceVerif.Lemmas.EngineCoreFw7
 namespace Qbice.CoreFw
 open Qbice.Core (Prog Err Write SetRes allVals evalProg applyWorld Sat TraceOK)
 
-/-- the recorded run of `k` cannot be kept: it is broken, or `k` is a projection that is not verified
-    and has a callee whose backward projection is pending -/
-def Bad (s : St) (k : Key) : Prop :=
-  Broken s k ∨ ∃ n f o, s.nodes k = some n ∧ n.kind = .projection ∧ n.lastVerified ≠ s.epoch ∧
-    (f, o) ∈ n.deps ∧ hasPending s f = true
-
-theorem hasPending_touches {b : Nat} {s s' : St} (t : Touches b s s') {f : Key}
-    (h : hasPending s f = true) : hasPending s' f = true := by
-  cases hf : s.nodes f with
-  | none => simp [hasPending, hf] at h
-  | some nf =>
-    obtain ⟨nf', hf', hp'⟩ := t.2 f nf hf (by simpa [hasPending, hf] using h)
-    simp [hasPending, hf', hp']
-
-theorem Bad.frame {p : Program} {s s' : St} {k : Key} (h : Bad s k) (inv : Inv p s)
-    (f : Frame p s s') (t : Touches k s s') : Bad s' k := by
+theorem Just.frame {p : Program} {s s' : St} {k : Key} (h : Just p s k) (f : Frame p s s')
+    (t : Touches k s s') : Just p s' k := by
   have hk : s'.nodes k = s.nodes k := t.1 k (Nat.le_refl _)
-  rcases h with h | ⟨n, fk, o, hn, hkp, hnv, hm, hp⟩
-  · exact Or.inl (h.frame inv f hk)
-  · exact Or.inr ⟨n, fk, o, by rw [hk]; exact hn, hkp, by rw [f.epoch]; exact hnv, hm, hasPending_touches t hp⟩
-
-theorem Bad.not_solid {s : St} {k : Key} (h : Bad s k) : ¬ Solid s k := by
-  rcases h with h | ⟨n, fk, o, hn, hkp, hnv, hm, hp⟩
-  · exact h.not_solid
-  · exact not_solid_of_pending hn hkp hnv hm hp
-
-theorem Bad.not_nGood {s : St} {k : Key} (h : Bad s k) :
-    ∀ n, s.nodes k = some n → n.kind = .normal → ¬ NGood s k := by
-  intro n hn hkn
-  rcases h with h | ⟨n', fk, o, hn', hkp, _⟩
-  · exact h.not_nGood hn
-  · rw [hn] at hn'; cases hn'; rw [hkn] at hkp; cases hkp
-
-theorem Why.frame {p : Program} {s s' : St} {k : Key} (h : Why p s k) (f : Frame p s s')
-    (t : Touches k s s') : Why p s' k := by
-  have hk : s'.nodes k = s.nodes k := t.1 k (Nat.le_refl _)
-  have hnv : ¬ Verified s' k := by
-    rintro ⟨n, hn, hv⟩
-    exact h.not_verified ⟨n, by rw [← hk]; exact hn, by rw [hv, f.epoch]⟩
-  rcases h with h | ⟨_, n, fk, o, hn, hkp, hm, hp⟩
-  · refine Or.inl ⟨hnv, ?_⟩
-    rw [hk, f.cur]; exact h.2
-  · exact Or.inr ⟨hnv, n, fk, o, by rw [hk]; exact hn, hkp, hm, hasPending_touches t hp⟩
+  refine ⟨?_, ?_⟩
+  · rintro ⟨n, hn, hv⟩
+    exact h.1 ⟨n, by rw [← hk]; exact hn, by rw [hv, f.epoch]⟩
+  · rw [hk, f.cur]; exact h.2
 
 theorem execute_spec {p : Program} (wf : WF p) (sh : Shape p) {q : Q} {k : Key}
     (hq : QSpec p q k) {d : NodeDef} (hp : p[k]? = some d) (hki : d.kind ≠ .input)
-    (hke : d.kind ≠ .external) {s : St} (inv : Inv p s) (hwhy : Why p s k) (hbad : Bad s k) :
+    (hke : d.kind ≠ .external) {s : St} (inv : Inv p s) (hwhy : Just p s k) (hbad : Broken s k) :
     Sat (execute q k d s) (QPost p k s) := by
   have hrun := runProg_spec hq d.prog {} s (wf k d hp hki hke).1 inv (AccOK.nil p k s)
   unfold execute
@@ -63,7 +27,7 @@ theorem execute_spec {p : Program} (wf : WF p) (sh : Shape p) {q : Q} {k : Key}
     rw [hr] at hrun
     obtain ⟨i1, f1, t1, a1, _, tr⟩ := hrun
     simp only at i1 f1 t1 a1 tr ⊢
-    have hbad1 : Bad s1 k := hbad.frame inv f1 t1
+    have hbad1 : Broken s1 k := hbad.frame inv f1 (t1.1 k (Nat.le_refl _))
     have hpj : NoProjOverProj p → d.kind = .projection → ∀ d' o nd, (d', o) ∈ a.deps →
         s1.nodes d' = some nd → nd.kind = .firewall := by
       intro pf hkp d' o nd hm hnd
@@ -87,7 +51,7 @@ theorem execute_spec {p : Program} (wf : WF p) (sh : Shape p) {q : Q} {k : Key}
       rw [hr] at this
       exact this
     obtain ⟨i3, f13, t13, n3k, e3⟩ := publish_spec hp hki hke i1 (hwhy.frame f1 t1) hbad1.not_solid
-      hbad1.not_nGood a1 tr hpj hpk hst
+      (fun n hn _ => hbad1.not_nGood hn) a1 tr hpj hpk hst
     refine ⟨i3, f1.trans f13, (t1.mono (by komega)).trans t13, ?_, _, n3k, rfl, e3.symm⟩
     apply cur_exec wf hp hki hke tr
     intro d' o' hm
@@ -247,7 +211,7 @@ theorem executeExt_spec {p : Program} (wf : WF p) {k : Key} {d : NodeDef}
       · subst e; exact Or.inr ⟨nn, n3k, by rw [nnl, e3]⟩
       · exact Or.inl (n3o x e)
     · refine ⟨[k], l3, by simp, fun x hx => ?_, fun x hx hx' => ?_⟩
-      · rw [List.mem_singleton] at hx; subst hx; exact ⟨Or.inl hj, nn, n3k, by rw [nnl, e3]⟩
+      · rw [List.mem_singleton] at hx; subst hx; exact ⟨hj, nn, n3k, by rw [nnl, e3]⟩
       · rw [List.mem_singleton]
         false_or_by_contra
         rename_i e
@@ -281,11 +245,11 @@ theorem queryQ_spec {p : Program} (wf : WF p) (sh : Shape p) :
         | input => simp [Sat]
         | external => exact executeExt_spec wf hp hi inv hn
         | normal =>
-          exact execute_spec wf sh hq hp (by rw [hi]; decide) (by rw [hi]; decide) inv (Or.inl hj) (Or.inl (Or.inl hn))
+          exact execute_spec wf sh hq hp (by rw [hi]; decide) (by rw [hi]; decide) inv hj (Or.inl hn)
         | firewall =>
-          exact execute_spec wf sh hq hp (by rw [hi]; decide) (by rw [hi]; decide) inv (Or.inl hj) (Or.inl (Or.inl hn))
+          exact execute_spec wf sh hq hp (by rw [hi]; decide) (by rw [hi]; decide) inv hj (Or.inl hn)
         | projection =>
-          exact execute_spec wf sh hq hp (by rw [hi]; decide) (by rw [hi]; decide) inv (Or.inl hj) (Or.inl (Or.inl hn))
+          exact execute_spec wf sh hq hp (by rw [hi]; decide) (by rw [hi]; decide) inv hj (Or.inl hn)
     | some n =>
       simp only
       split
@@ -319,7 +283,7 @@ theorem queryQ_spec {p : Program} (wf : WF p) (sh : Shape p) :
               rw [k1] at hn'; cases hn'
               exact hv1 hv'
             have hbr1 : Broken s1 k := Or.inr ⟨n, dd, oo, nd, k1, hm, hnd, hvne, hver⟩
-            refine (execute_spec wf sh hq hp hkin hkex i1 (Or.inl hj1) (Or.inl hbr1)).mono ?_
+            refine (execute_spec wf sh hq hp hkin hkex i1 hj1 hbr1).mono ?_
             rintro ⟨v, s2⟩ ⟨i2, f2, t2, c2, hnode⟩
             exact ⟨i2, f1.trans f2, t1.trans t2, by rw [← f1.cur]; exact c2, hnode⟩
           | false =>
